@@ -149,6 +149,22 @@ func (matrix *DenseIntMatrix) SLICE(rfrom, rto, cfrom, cto int) *DenseIntMatrix 
   m.cols = cto - cfrom
   return &m
 }
+func (matrix *DenseIntMatrix) AsDenseIntVector() DenseIntVector {
+  if matrix.rows < matrix.rowMax || matrix.cols < matrix.colMax {
+    // matrix is a slice of a larger matrix, return the elements
+    // of the slice
+    n, m := matrix.Dims()
+    v := make([]int, n*m)
+    for i := 0; i < n; i++ {
+      for j := 0; j < m; j++ {
+        v[i*m + j] = matrix.values[matrix.index(i, j)]
+      }
+    }
+    return DenseIntVector(v)
+  } else {
+    return DenseIntVector(matrix.values)
+  }
+}
 /* matrix interface
  * -------------------------------------------------------------------------- */
 func (matrix *DenseIntMatrix) CloneMatrix() Matrix {
@@ -250,7 +266,7 @@ func (matrix *DenseIntMatrix) Tip() {
   matrix.rowMax, matrix.colMax = matrix.colMax, matrix.rowMax
 }
 func (matrix *DenseIntMatrix) AsVector() Vector {
-  return DenseIntVector(matrix.values)
+  return matrix.AsDenseIntVector()
 }
 func (matrix *DenseIntMatrix) storageLocation() uintptr {
   return uintptr(unsafe.Pointer(&matrix.values[0]))
@@ -339,7 +355,7 @@ func (matrix *DenseIntMatrix) IsSymmetric(epsilon float64) bool {
   return true
 }
 func (matrix *DenseIntMatrix) AsConstVector() ConstVector {
-  return DenseIntVector(matrix.values)
+  return matrix.AsDenseIntVector()
 }
 /* implement ScalarContainer
  * -------------------------------------------------------------------------- */
